@@ -293,17 +293,49 @@ def triage_prepare(E):
     _TRIAGE_STATE["exact"] = exact
 
 
+def _index_text(text):
+    """the index expression of a subscript construct 'base[index]' (last bracket group)"""
+    if text.endswith("]") and "[" in text:
+        depth = 0
+        for i in range(len(text) - 1, -1, -1):
+            if text[i] == "]":
+                depth += 1
+            elif text[i] == "[":
+                depth -= 1
+                if depth == 0:
+                    return text[i + 1:-1]
+    return None
+
+
 def triage_lookup(ctx, s, key3):
-    """invariant for a site: its exact key; otherwise an entry of the same function / kind / alpha-shape that no construct
-    of the current tree matches exactly (the entry's construct was renamed)"""
+    """invariant for a site.  1. its exact key.  Then, only among entries that no construct of the current tree matches
+    exactly (i.e. the entry's construct was renamed / moved by a refactoring):
+    2. same function, kind and alpha-shape;  3. same function and kind, same index expression (the container expression
+    was rewritten);  4. same module, kind and alpha-shape (the construct moved into an extracted helper)."""
     inv = TRIAGE.get(key3)
     if inv is not None:
         return inv
     fname, kind, text = key3
     mine = alpha(text, s.func)
     exact = _TRIAGE_STATE.get("exact", set())
-    for (f2, k2, t2), inv2 in TRIAGE.items():
-        if f2 == fname and k2 == kind and (f2, k2, t2) not in exact and alpha(t2, s.func) == mine:
+    free = [(k, v) for k, v in TRIAGE.items() if k not in exact and k[1] == kind]
+    for (f2, k2, t2), inv2 in free:
+        if f2 == fname and alpha(t2, s.func) == mine:
+            return inv2
+    it = _index_text(text)
+    if it is not None and kind == "subscript":
+        for (f2, k2, t2), inv2 in free:
+            if f2 == fname and _index_text(t2) == it:
+                return inv2
+    # extracted helper: entries of functions defined in the same module
+    mod_funcs = set()
+    for d in s.func.module.defs.values():
+        if hasattr(d, "methods"):
+            mod_funcs |= {d.name + "." + m for m in d.methods}
+        else:
+            mod_funcs.add(d.name)
+    for (f2, k2, t2), inv2 in free:
+        if f2 != fname and f2 in mod_funcs and alpha(t2, s.func) == mine:
             return inv2
     return None
 
@@ -436,6 +468,19 @@ HAND_LOOPS = {
 }
 
 
+def _bounded_above(test, name):
+    """the loop test bounds `name` from above: name < X, name <= X (possibly inside a chained comparison / conjunction)"""
+    for n in ast.walk(test):
+        if isinstance(n, ast.Compare):
+            items = [n.left] + list(n.comparators)
+            for (a, op, b) in zip(items, n.ops, items[1:]):
+                if isinstance(op, (ast.Lt, ast.LtE)) and isinstance(a, ast.Name) and a.id == name:
+                    return True
+                if isinstance(op, (ast.Gt, ast.GtE)) and isinstance(b, ast.Name) and b.id == name:
+                    return True
+    return False
+
+
 def check_inc_loop(ctx, f, node):
     """T-inc by the engine: on every back edge the counter is >= head + 1"""
     class H(Hooks):
@@ -524,15 +569,25 @@ def check_termination(ctx, rep, E, ec):
             elif check_div_loop(ctx, f, node) is not None:
                 how = "variant template T-div: the counter is floor-divided by a constant >= 2 on every back edge and is >= 1 inside the loop"
             else:
-                hk = (f.name, tt)
-                if hk in HAND_LOOPS:
-                    t, why = HAND_LOOPS[hk]
-                    if t == "T-inc":
-                        nm = check_inc_loop(ctx, f, node)
-                        if nm is not None:
-                            how = "variant template T-inc: %s strictly increases on every back edge (entailed) and is bounded by the loop test" % nm
-                    else:
-                        how = "%s: %s" % (t, why)
+                nm = check_inc_loop(ctx, f, node)
+                if nm is not None and _bounded_above(node.test, nm):
+                    how = "variant template T-inc: %s strictly increases on every back edge (entailed) and is bounded by the loop test" % nm
+                else:
+                    entry = HAND_LOOPS.get((f.name, tt))
+                    if entry is None:
+                        # renamed variables / loop moved into an extracted helper of the same module: match the test's shape
+                        mine = alpha(tt, f)
+                        present = set()
+                        for k2 in E.order:
+                            g2 = E.infos[k2].f
+                            for n2 in own_nodes(g2.node):
+                                if isinstance(n2, ast.While):
+                                    present.add((g2.name, " ".join(unparse(n2.test).split())))
+                        for (f2, t2), v2 in HAND_LOOPS.items():
+                            if (f2, t2) not in present and alpha(t2, f) == mine:
+                                entry = v2
+                    if entry is not None and entry[0] != "T-inc":
+                        how = "%s: %s" % entry
             rep.ob("TERM", how is not None, node, f, construct="while %s" % tt, how=how or "",
                    witness=None if how else "loop without a termination argument (matches no variant template)", nontrivial=True,
                    key="loop/%s/%s" % (f.name, tt))
